@@ -1,116 +1,29 @@
 import Deb822Verif.Model.RelLossy
 import Deb822Verif.Model.Outcome
 /-!
-  Constructors of the lossless relation types (`debian-control/src/lossless/relations.rs`) as pure
-  functions producing the green trees the Rust code builds, token kinds and texts exactly as
-  emitted:
+  Constructors of the lossless relation types (`debian-control/src/lossless/relations.rs`, as of
+  commit 27115b9) as pure functions producing the green trees the Rust code builds, token kinds and
+  texts exactly as emitted:
 
-  * `Relation::new` (1084-1126), `Relation::simple` (1203-1205),
+  * helpers `version_tokens` (1059), `version_node` (1072), `architectures_node` (1095),
+    `profiles_node` (1114),
+  * `Relation::new` (1172-1191), `Relation::simple` (1229),
   * `RelationBuilder::{new, version_constraint, archqual, architectures, profiles, add_profile, build}`
-    (1704-1767), `Relation::build` (1686-1688),
-  * `From<Vec<Relation>> for Entry` (1047-1062), `Entry::new` (753-758),
-    `From<Vec<Entry>> for Relations` (692-706), `Relations::new` (569-571),
-  * `From<lossy::Relation> for Relation` (1858-1878), `From<Relation> for lossy::Relation`
-    (1880-1890), `Entry ↔ Vec<lossy::Relation>` (1892-1903),
-  * the mutators those constructors call — `set_archqual` (1285-1309), `set_version` (1347-1420),
-    `set_architectures` (1574-1620), `add_profile` (1633-1683) — ON A ROOT HANDLE ONLY
-    (`self.0.parent()` is `None`).
-
-  A handle is a tree plus the mutability of its root: rowan's `splice_children` / `detach` panic on
-  a tree created with `SyntaxNode::new_root` ("immutable tree"); several mutators replace the
-  handle by a fresh `new_root` (immutable!) or `new_root_mut` one. Panics are `Outcome.panic`.
+    (1658-1720), `Relation::build` (1640),
+  * `From<Vec<Relation>> for Entry` (1135-1150), `Entry::new` (773), `From<Vec<Entry>> for Relations`
+    (716-730), `Relations::new` (569),
+  * `From<lossy::Relation> for Relation` (1830-1850), `From<Relation> for lossy::Relation`
+    (1852-1862), `Entry ↔ Vec<lossy::Relation>` (1864-1875),
+  * the mutators those constructors call — `set_archqual` (1311), `set_version` (1373),
+    `drop_constraint` (1243), `set_architectures` (1562), `add_profile` (1620) — on a relation node
+    (they all edit the node in place with `splice_children` / `detach`; since fix 6949717 no handle is
+    ever re-rooted and no tree is created with the immutable `SyntaxNode::new_root`, so a handle
+    is just the tree and none of these functions can panic).
 -/
 namespace Deb822Verif.Rel.Build
 open Deb822Verif Rel Node
 
-/-- a root handle: the tree and whether it was created with `new_root_mut` -/
-structure Handle where
-  tree : RNode
-  mutable : Bool
-  deriving Repr
-
 abbrev T (k : Kind) (s : String) : RNode := .tok k s.toList
-
-/-- the tokens `vc.to_string().chars()` mapped to R_ANGLE / L_ANGLE / EQUAL (relations.rs:1093-1103) -/
-def constraintToks (vc : VC) : List RNode :=
-  vc.display.map fun c =>
-    if c = '>' then Node.tok .R_ANGLE [c] else if c = '<' then Node.tok .L_ANGLE [c] else Node.tok .EQUAL [c]
-
-/-- `Relation::new(name, version_constraint)`: `name [" " VERSION( "(" CONSTRAINT(op chars) " " IDENT(version) ")" )]`;
-    the whole version text — epoch included — is ONE IDENT token. Root: `new_root_mut`. -/
-def relationNew (name : Str) (vc : Option (VC × Version)) : Handle :=
-  ⟨.node .RELATION (.tok .IDENT name ::
-      (match vc with
-        | some (c, v) =>
-          [T .WHITESPACE " ",
-           .node .VERSION [T .L_PARENS "(", .node .CONSTRAINT (constraintToks c), T .WHITESPACE " ",
-             .tok .IDENT v.display, T .R_PARENS ")"]]
-        | none => [])), true⟩
-
-/-- `Relation::simple(name)` -/
-def relationSimple (name : Str) : Handle := relationNew name none
-
-/-- `children().find(|n| n.kind() == k)` as an index into `children_with_tokens()` -/
-def nodeIdx (k : Kind) (cs : List RNode) : Option Nat := cs.findIdx? fun c => c.isNode && c.kind == k
-/-- `children_with_tokens().find(|n| n.kind() == k)` as an index -/
-def elemIdx (k : Kind) (cs : List RNode) : Option Nat := cs.findIdx? fun c => c.kind == k
-
-def replaceAt (cs : List RNode) (i : Nat) (new : List RNode) : List RNode := cs.take i ++ new ++ cs.drop (i + 1)
-def insertAt (cs : List RNode) (i : Nat) (new : List RNode) : List RNode := cs.take i ++ new ++ cs.drop i
-
-def immutablePanic {α} (site : String) : Outcome α := .panic s!"immutable tree ({site})"
-
-/-- `self.0.splice_children(range, new)` on the root: panics on an immutable tree -/
-def spliceRoot (h : Handle) (site : String) (f : List RNode → List RNode) : Outcome Handle :=
-  if h.mutable then .ok ⟨.node h.tree.kind (f h.tree.children), true⟩ else immutablePanic site
-
-/-- index right after the first element of kind IDENT (the package name), or 0
-    (relations.rs:1298-1303, 1389-1394) -/
-def afterName (cs : List RNode) : Nat := match elemIdx .IDENT cs with | some i => i + 1 | none => 0
-
-/-- `Relation::set_archqual` on a root handle: replace the ARCHQUAL node or insert one right after
-    the name; both branches splice in place (mutable tree required) -/
-def setArchqual (h : Handle) (aq : Str) : Outcome Handle :=
-  let node := Node.node .ARCHQUAL [T .COLON ":", .tok .IDENT aq]
-  match nodeIdx .ARCHQUAL h.tree.children with
-  | some i => spliceRoot h "set_archqual" fun cs => replaceAt cs i [node]
-  | none => spliceRoot h "set_archqual" fun cs => insertAt cs (afterName cs) [node]
-
-/-- the CONSTRAINT tokens of `set_version` (relations.rs:1354-1371): `GreaterThan` and `LessThan`
-    are emitted as a SINGLE `>` / `<` (not `>>` / `<<` as `Relation::new` does) -/
-def setVersionConstraintToks : VC → List RNode
-  | .GreaterThanEqual => [T .R_ANGLE ">", T .EQUAL "="]
-  | .LessThanEqual => [T .L_ANGLE "<", T .EQUAL "="]
-  | .Equal => [T .EQUAL "="]
-  | .GreaterThan => [T .R_ANGLE ">"]
-  | .LessThan => [T .L_ANGLE "<"]
-
-def isWsElem (c : RNode) : Bool := c.kind == .WHITESPACE || c.kind == .NEWLINE
-
-/-- `Relation::set_version` on a root handle.
-    * `Some`, a VERSION node exists: replaced in place (mutable tree required);
-    * `Some`, none exists: `" " VERSION` inserted after the name on the green tree, the handle becomes
-      a fresh `new_root_mut` (mutable);
-    * `None`, a VERSION node exists: the whitespace before it and the node are `detach`ed
-      (mutable tree required);
-    * `None`, none exists: nothing. -/
-def setVersion (h : Handle) (vc : Option (VC × Version)) : Outcome Handle :=
-  match vc with
-  | some (c, v) =>
-    let node := Node.node .VERSION [T .L_PARENS "(", .node .CONSTRAINT (setVersionConstraintToks c),
-      T .WHITESPACE " ", .tok .IDENT v.display, T .R_PARENS ")"]
-    match nodeIdx .VERSION h.tree.children with
-    | some i => spliceRoot h "set_version" fun cs => replaceAt cs i [node]
-    | none =>
-      .ok ⟨.node h.tree.kind (insertAt h.tree.children (afterName h.tree.children) [T .WHITESPACE " ", node]), true⟩
-  | none =>
-    match nodeIdx .VERSION h.tree.children with
-    | some i =>
-      if h.mutable then
-        .ok ⟨.node h.tree.kind (((h.tree.children.take i).reverse.dropWhile isWsElem).reverse
-          ++ h.tree.children.drop (i + 1)), true⟩
-      else immutablePanic "set_version: detach"
-    | none => .ok h
 
 /-- `for (i, x) in xs.enumerate() { if i > 0 { sep }; x }` -/
 def sepBy (sep : List RNode) : List (List RNode) → List RNode
@@ -118,48 +31,154 @@ def sepBy (sep : List RNode) : List (List RNode) → List RNode
   | [x] => x
   | x :: y :: rest => x ++ sep ++ sepBy sep (y :: rest)
 
-/-- `[` arch (` ` arch)* `]`: every architecture string is ONE IDENT token, a leading `!` included
-    (relations.rs:1575-1585) -/
+/-- the tokens `vc.to_string().chars()` mapped to R_ANGLE / L_ANGLE / EQUAL (relations.rs:1076-1086) -/
+def constraintToks (vc : VC) : List RNode :=
+  vc.display.map fun c =>
+    if c = '>' then Node.tok .R_ANGLE [c] else if c = '<' then Node.tok .L_ANGLE [c] else Node.tok .EQUAL [c]
+
+/-- Rust `str::split_once(c)` -/
+def splitOnce (c : Char) : Str → Option (Str × Str)
+  | [] => none
+  | x :: xs =>
+    if x = c then some ([], xs)
+    else match splitOnce c xs with
+      | some (a, b) => some (x :: a, b)
+      | none => none
+
+/-- `version_tokens` (relations.rs:1059-1069): `IDENT`, or `IDENT COLON IDENT` when the version has
+    an epoch — what the lexer makes of the same text -/
+def versionTokens (v : Version) : List RNode :=
+  match splitOnce ':' v.display with
+  | some (epoch, rest) =>
+    if v.epoch.isSome then [Node.tok .IDENT epoch, T .COLON ":", Node.tok .IDENT rest]
+    else [Node.tok .IDENT v.display]
+  | none => [Node.tok .IDENT v.display]
+
+/-- `version_node` (relations.rs:1072-1092): `(` CONSTRAINT(op chars) ` ` version tokens `)` -/
+def versionNode (c : VC) (v : Version) : RNode :=
+  .node .VERSION ([T .L_PARENS "(", .node .CONSTRAINT (constraintToks c), T .WHITESPACE " "]
+    ++ versionTokens v ++ [T .R_PARENS ")"])
+
+/-- `Relation::new(name, version_constraint)`: `name [" " VERSION]` -/
+def relationNew (name : Str) (vc : Option (VC × Version)) : RNode :=
+  .node .RELATION (.tok .IDENT name ::
+    (match vc with
+      | some (c, v) => [T .WHITESPACE " ", versionNode c v]
+      | none => []))
+
+/-- `Relation::simple(name)` -/
+def relationSimple (name : Str) : RNode := relationNew name none
+
+/-- `children().find(|n| n.kind() == k)` as an index into `children_with_tokens()` -/
+def nodeIdx (k : Kind) (cs : List RNode) : Option Nat := cs.findIdx? fun c => c.isNode && c.kind == k
+/-- `children_with_tokens().find(|n| n.kind() == k)` as an index -/
+def elemIdx (k : Kind) (cs : List RNode) : Option Nat := cs.findIdx? fun c => c.kind == k
+/-- `children().filter(|n| n.kind() == k).last()` as an index -/
+def lastNodeIdx (k : Kind) (cs : List RNode) : Option Nat :=
+  match (cs.reverse.findIdx? fun c => c.isNode && c.kind == k) with
+  | some j => some (cs.length - 1 - j)
+  | none => none
+
+def replaceAt (cs : List RNode) (i : Nat) (new : List RNode) : List RNode := cs.take i ++ new ++ cs.drop (i + 1)
+def insertAt (cs : List RNode) (i : Nat) (new : List RNode) : List RNode := cs.take i ++ new ++ cs.drop i
+
+/-- apply a function to the children of a node -/
+def onChildren (n : RNode) (f : List RNode → List RNode) : RNode := .node n.kind (f n.children)
+
+/-- index right after the first element of kind IDENT (the package name), or 0 (relations.rs:1324-1329) -/
+def afterName (cs : List RNode) : Nat := match elemIdx .IDENT cs with | some i => i + 1 | none => 0
+
+/-- `Relation::set_archqual`: replace the ARCHQUAL node or insert one right after the name -/
+def setArchqual (r : RNode) (aq : Str) : RNode :=
+  let node := Node.node .ARCHQUAL [T .COLON ":", .tok .IDENT aq]
+  match nodeIdx .ARCHQUAL r.children with
+  | some i => onChildren r fun cs => replaceAt cs i [node]
+  | none => onChildren r fun cs => insertAt cs (afterName cs) [node]
+
+def isWsElem (c : RNode) : Bool := c.kind == .WHITESPACE || c.kind == .NEWLINE
+
+/-- detach the node at `i` and the whitespace / newline tokens directly before it
+    (relations.rs:1246-1254, 1406-1415, 1567-1576) -/
+def removeWithWsBefore (cs : List RNode) (i : Nat) : List RNode :=
+  ((cs.take i).reverse.dropWhile isWsElem).reverse ++ cs.drop (i + 1)
+
+/-- index right after the ARCHQUAL element if there is one, else after the name, else 0
+    (relations.rs:1388-1394) -/
+def versionAnchor (cs : List RNode) : Nat :=
+  match elemIdx .ARCHQUAL cs with
+  | some i => i + 1
+  | none => afterName cs
+
+/-- `Relation::set_version`.
+    * `Some`, a VERSION node exists: replaced in place;
+    * `Some`, none exists: `" " VERSION` inserted after the qualifier (or the name);
+    * `None`, a VERSION node exists: it and the whitespace before it are detached;
+    * `None`, none exists: nothing. -/
+def setVersion (r : RNode) (vc : Option (VC × Version)) : RNode :=
+  match vc with
+  | some (c, v) =>
+    match nodeIdx .VERSION r.children with
+    | some i => onChildren r fun cs => replaceAt cs i [versionNode c v]
+    | none => onChildren r fun cs => insertAt cs (versionAnchor cs) [T .WHITESPACE " ", versionNode c v]
+  | none =>
+    match nodeIdx .VERSION r.children with
+    | some i => onChildren r fun cs => removeWithWsBefore cs i
+    | none => r
+
+/-- `Relation::drop_constraint` (relations.rs:1243-1260): the tree and the returned flag -/
+def dropConstraint (r : RNode) : RNode × Bool :=
+  match nodeIdx .VERSION r.children with
+  | some i => (onChildren r fun cs => removeWithWsBefore cs i, true)
+  | none => (r, false)
+
+/-- one architecture: `!name` is written NOT IDENT (relations.rs:1102-1107) -/
+def archToks (a : Str) : List RNode :=
+  match a with
+  | '!' :: n => [T .NOT "!", Node.tok .IDENT n]
+  | _ => [Node.tok .IDENT a]
+
+/-- `architectures_node`: `[` arch (` ` arch)* `]` -/
 def architecturesNode (archs : List Str) : RNode :=
   .node .ARCHITECTURES (T .L_BRACKET "[" ::
-    (sepBy [T .WHITESPACE " "] (archs.map fun a => [Node.tok .IDENT a]) ++ [T .R_BRACKET "]"]))
+    (sepBy [T .WHITESPACE " "] (archs.map archToks) ++ [T .R_BRACKET "]"]))
 
-/-- `Relation::set_architectures` on a root handle.
-    * an ARCHITECTURES node exists: replaced in place (mutable tree required);
-    * none exists: `" " ARCHITECTURES` inserted before the first PROFILES node (or at the end) on the
-      green tree, and the handle becomes a fresh `SyntaxNode::new_root` — IMMUTABLE. -/
-def setArchitectures (h : Handle) (archs : List Str) : Outcome Handle :=
-  match nodeIdx .ARCHITECTURES h.tree.children with
-  | some i => spliceRoot h "set_architectures" fun cs => replaceAt cs i [architecturesNode archs]
-  | none =>
-    let idx := match nodeIdx .PROFILES h.tree.children with
-      | some i => i
-      | none => h.tree.children.length
-    .ok ⟨.node h.tree.kind (insertAt h.tree.children idx [T .WHITESPACE " ", architecturesNode archs]), false⟩
+/-- `Relation::set_architectures` (relations.rs:1562-1608).
+    * empty list: an existing ARCHITECTURES node (and the whitespace before it) is removed;
+    * an ARCHITECTURES node exists: replaced in place;
+    * a PROFILES node exists: `ARCHITECTURES " "` inserted right before the first one;
+    * otherwise `" " ARCHITECTURES` appended. -/
+def setArchitectures (r : RNode) (archs : List Str) : RNode :=
+  if archs.isEmpty then
+    match nodeIdx .ARCHITECTURES r.children with
+    | some i => onChildren r fun cs => removeWithWsBefore cs i
+    | none => r
+  else
+    match nodeIdx .ARCHITECTURES r.children with
+    | some i => onChildren r fun cs => replaceAt cs i [architecturesNode archs]
+    | none =>
+      match nodeIdx .PROFILES r.children with
+      | some i => onChildren r fun cs => insertAt cs i [architecturesNode archs, T .WHITESPACE " "]
+      | none => onChildren r fun cs => insertAt cs cs.length [T .WHITESPACE " ", architecturesNode archs]
 
-/-- one term of a restriction list: a disabled profile is NOT + IDENT (relations.rs:1641-1650) -/
+/-- one term of a restriction list: a disabled profile is NOT + IDENT (relations.rs:1121-1129) -/
 def termToks (p : BuildProfile) : List RNode :=
   match p with
   | .Disabled n => [T .NOT "!", Node.tok .IDENT n]
   | .Enabled n => [Node.tok .IDENT n]
 
-/-- `<` term (` ` term)* `>` (relations.rs:1634-1652) -/
+/-- `profiles_node`: `<` term (` ` term)* `>` -/
 def profilesNode (profile : List BuildProfile) : RNode :=
   .node .PROFILES (T .L_ANGLE "<" :: (sepBy [T .WHITESPACE " "] (profile.map termToks) ++ [T .R_ANGLE ">"]))
 
-/-- `Relation::add_profile` on a root handle.
-    * a PROFILES node exists: the FIRST one is *replaced* in place (mutable tree required) — the
-      method does not add a second group;
-    * none exists: `" " PROFILES` appended on the green tree, the handle becomes a fresh
-      `SyntaxNode::new_root` — IMMUTABLE. -/
-def addProfile (h : Handle) (profile : List BuildProfile) : Outcome Handle :=
-  match nodeIdx .PROFILES h.tree.children with
-  | some i => spliceRoot h "add_profile" fun cs => replaceAt cs i [profilesNode profile]
-  | none =>
-    .ok ⟨.node h.tree.kind (insertAt h.tree.children h.tree.children.length
-      [T .WHITESPACE " ", profilesNode profile]), false⟩
+/-- `Relation::add_profile` (relations.rs:1620-1637): `" " PROFILES` inserted after the last
+    PROFILES node, or appended -/
+def addProfile (r : RNode) (profile : List BuildProfile) : RNode :=
+  let idx := match lastNodeIdx .PROFILES r.children with
+    | some i => i + 1
+    | none => r.children.length
+  onChildren r fun cs => insertAt cs idx [T .WHITESPACE " ", profilesNode profile]
 
-/-- `RelationBuilder` (relations.rs:1704-1710); `architectures` is a plain `Vec` (no `Option`) -/
+/-- `RelationBuilder` (relations.rs:1658-1664); `architectures` is a plain `Vec` (no `Option`) -/
 structure RelationBuilder where
   name : Str
   versionConstraint : Option (VC × Version)
@@ -179,52 +198,43 @@ def setProfiles (b : RelationBuilder) (ps : List (List BuildProfile)) : Relation
 def addProfile (b : RelationBuilder) (p : List BuildProfile) : RelationBuilder :=
   { b with profiles := b.profiles ++ [p] }
 
-/-- the `for profile in &self.profiles { relation.add_profile(profile) }` loop -/
-def addProfiles (h : Handle) : List (List BuildProfile) → Outcome Handle
-  | [] => .ok h
-  | p :: ps => (Build.addProfile h p).bind fun h' => addProfiles h' ps
-
-/-- `RelationBuilder::build` (relations.rs:1755-1766): `set_architectures` is called unconditionally
-    (an empty list appends ` []`), then one `add_profile` per group (the second one hits an
-    immutable tree) -/
-def build (b : RelationBuilder) : Outcome Handle :=
+/-- `RelationBuilder::build` (relations.rs:1709-1719): `set_architectures` is still called
+    unconditionally, but an empty list now leaves the relation alone -/
+def build (b : RelationBuilder) : RNode :=
   let r0 := relationNew b.name b.versionConstraint
-  (match b.archqual with
-    | some aq => Build.setArchqual r0 aq
-    | none => .ok r0).bind fun r1 =>
-  (Build.setArchitectures r1 b.architectures).bind fun r2 =>
-  addProfiles r2 b.profiles
+  let r1 := match b.archqual with | some aq => Build.setArchqual r0 aq | none => r0
+  let r2 := Build.setArchitectures r1 b.architectures
+  b.profiles.foldl Build.addProfile r2
 end RelationBuilder
 
 /-- `inject(builder, node)` copies the subtree: the green tree is the same value -/
 def inject (n : RNode) : RNode := n
 
-/-- `From<Vec<Relation>> for Entry`: relations separated by WHITESPACE `" "`, a token of kind
-    **COMMA** with text `"|"` (relations.rs:1054), WHITESPACE `" "`. Root: `new_root_mut`. -/
-def entryFromRelations (rs : List RNode) : Handle :=
-  ⟨.node .ENTRY (sepBy [T .WHITESPACE " ", T .COMMA "|", T .WHITESPACE " "] (rs.map fun r => [inject r])), true⟩
+/-- `From<Vec<Relation>> for Entry`: relations separated by WHITESPACE `" "`, PIPE `"|"`,
+    WHITESPACE `" "` -/
+def entryFromRelations (rs : List RNode) : RNode :=
+  .node .ENTRY (sepBy [T .WHITESPACE " ", T .PIPE "|", T .WHITESPACE " "] (rs.map fun r => [inject r]))
 
 /-- `Entry::new()` -/
-def entryNew : Handle := ⟨.node .ENTRY [], true⟩
+def entryNew : RNode := .node .ENTRY []
 
-/-- `From<Vec<Entry>> for Relations`: entries separated by COMMA `","`, WHITESPACE `" "`.
-    Root: `new_root_mut`. -/
-def relationsFromEntries (es : List RNode) : Handle :=
-  ⟨.node .ROOT (sepBy [T .COMMA ",", T .WHITESPACE " "] (es.map fun e => [inject e])), true⟩
+/-- `From<Vec<Entry>> for Relations`: entries separated by COMMA `","`, WHITESPACE `" "` -/
+def relationsFromEntries (es : List RNode) : RNode :=
+  .node .ROOT (sepBy [T .COMMA ",", T .WHITESPACE " "] (es.map fun e => [inject e]))
 
 /-- `Relations::new()` = `Relations::from(vec![])` -/
-def relationsNew : Handle := relationsFromEntries []
+def relationsNew : RNode := relationsFromEntries []
 
-/-- `From<lossy::Relation> for lossless::Relation` (relations.rs:1858-1878): through the builder;
+/-- `From<lossy::Relation> for lossless::Relation` (relations.rs:1830-1850): through the builder;
     `architectures: None` leaves the builder's empty `Vec` -/
-def toLossless (r : Lossy.Relation) : Outcome Handle :=
+def toLossless (r : Lossy.Relation) : RNode :=
   let b0 := RelationBuilder.new r.name
   let b1 := match r.version with | some (c, v) => b0.setVersionConstraint c v | none => b0
   let b2 := match r.archqual with | some a => b1.setArchqual a | none => b1
   let b3 := match r.architectures with | some as => b2.setArchitectures as | none => b2
   (b3.setProfiles r.profiles).build
 
-/-- `From<lossless::Relation> for lossy::Relation` (relations.rs:1880-1890): the five accessors;
+/-- `From<lossless::Relation> for lossy::Relation` (relations.rs:1852-1862): the five accessors;
     `panic` when `name()` or `version()` does -/
 def toLossy (n : RNode) : Outcome Lossy.Relation :=
   match accRelation n with
@@ -237,8 +247,7 @@ def collect {α β} (f : α → Outcome β) : List α → Outcome (List β)
   | x :: xs => (f x).bind fun y => (collect f xs).map (y :: ·)
 
 /-- `From<Vec<lossy::Relation>> for Entry` -/
-def entryFromLossy (rs : List Lossy.Relation) : Outcome Handle :=
-  (collect (fun r => (toLossless r).map (·.tree)) rs).map entryFromRelations
+def entryFromLossy (rs : List Lossy.Relation) : RNode := entryFromRelations (rs.map toLossless)
 
 /-- `From<Entry> for Vec<lossy::Relation>` -/
 def entryToLossy (e : RNode) : Outcome (List Lossy.Relation) := collect toLossy (relations e)
